@@ -144,6 +144,11 @@ def _checkout_file(
                 prompt=prompt,
             )
     else:
+        if not force and fs.isfile(path):
+            # The workspace could not be staged (e.g. it contains a broken
+            # symlink), so nothing is known about this existing file: do not
+            # overwrite it as if the path were free.
+            _remove(path, fs, False, force=force, prompt=prompt)
         link(cache, cache_path, fs, path)
         modified = True
     return modified
